@@ -38,7 +38,7 @@ def compile_demo(wt, d, meta, out):
     defs = re.findall(r'(-D\S+)', cmd)
     std = re.findall(r'(-std=\S+)', cmd) or ['-std=c++17']
     extra = [x for x in re.findall(r'(-f\S+|-O\d|-g|-pthread|-l\S+)', cmd)]
-    r = sh(['g++'] + std + defs + extra + ['-I' + os.path.join(wt, 'src'), os.path.join(d, 'demo.cpp'), '-o', out])
+    r = sh(['g++'] + std + defs + extra + ['-I' + os.path.join(wt, 'src'), '-I' + d, os.path.join(d, 'demo.cpp'), '-o', out])   # (-I d: stub headers shipped with the demo)
     return r.returncode == 0, r.stdout[-2000:]
 
 
@@ -98,6 +98,9 @@ def confirm(name, src, checks, tier):
         os.makedirs(dst, exist_ok=True)
         shutil.copy(os.path.join(src, 'patch.diff'), dst)
         shutil.copy(os.path.join(src, 'demo.cpp'), dst)
+        for extra in os.listdir(src):
+            if extra.endswith('.h') or extra.endswith('.hpp'):
+                shutil.copy(os.path.join(src, extra), dst)
         json.dump(rec, open(os.path.join(dst, 'meta.json'), 'w'), indent=1)
         print('  kept as seeded/%s' % name)
     else:
